@@ -55,9 +55,5 @@ def check(tier, seed):
 
 
 def replay(path):
-    v = json.load(open(path))
-    print(json.dumps(v, indent=1))
-    C.build_harness()
-    rc, rep, out, err = C.harness(["c18-monitor", v.get("seed", 1), 2])
-    print(out[-3000:])
-    return rc
+    import generic as G
+    return G.generic_replay(PID, path)
